@@ -45,6 +45,45 @@ _MOD_ATTRS = {c: set(vars(c)) for c in _MOD_CLASSES}
 _MOD_TABLE = dict(_mods.modifier_mapping)
 _MOD_RTABLE = dict(_mods.reverse_modifier_mapping)
 
+# ---- module-level mutable objects of the sigma.* modules (registries, caches): recorded once per process; a fresh
+# setup puts their content back, and growth during a history is reported as information ----
+import importlib, pkgutil, sys, functools
+import sigma as _sigma_pkg
+for _m in pkgutil.walk_packages(_sigma_pkg.__path__, "sigma."):
+    if _m.name.startswith(("sigma.cli", "sigma.data")):       # static tables / not part of the library
+        continue
+    try:
+        importlib.import_module(_m.name)
+    except Exception:   # noqa - optional dependencies
+        pass
+_MODULE_OBJS = []       # (module name, attribute, object, content at import time)
+_LRU = []
+for _name, _mod in sorted(sys.modules.items()):
+    if _mod is None or not _name.startswith("sigma.") or _name.startswith("sigma.data"):
+        continue
+    for _attr, _v in list(vars(_mod).items()):
+        if _attr.startswith("__") or getattr(_v, "__module__", _name) not in (_name, "builtins", "collections", None) and not isinstance(_v, (dict, list, set)):
+            continue
+        if isinstance(_v, (dict, list, set)) and not any(o is _v for _, _, o, _ in _MODULE_OBJS):
+            _MODULE_OBJS.append((_name, _attr, _v, copy.copy(_v)))
+        elif hasattr(_v, "cache_clear") and hasattr(_v, "cache_info") and not any(o is _v for o in _LRU):
+            _LRU.append(_v)
+
+def reset_module_state():
+    for _, _, obj, content in _MODULE_OBJS:
+        if isinstance(obj, dict):
+            obj.clear(); obj.update(content)
+        elif isinstance(obj, list):
+            obj[:] = content
+        else:
+            obj.clear(); obj.update(content)
+    for f in _LRU:
+        f.cache_clear()
+
+def module_growth():
+    """module-level objects whose size differs from the size at import time (information, not a verdict)"""
+    return sorted(f"{m}.{a}" for m, a, obj, content in _MODULE_OBJS if len(obj) != len(content))
+
 def reset_modifier_state():
     for c in _MOD_CLASSES:
         for name in set(vars(c)) - _MOD_ATTRS[c]:
@@ -264,6 +303,7 @@ def canon_fm(fm):
 class World:
     def __init__(self, case):
         _parse_condition_string.cache_clear()
+        reset_module_state()
         reset_modifier_state()
         self.lcontains = register_lcontains()
         self.classes = [make_class(k, c) for k, c in enumerate(case["classes"])]
@@ -298,7 +338,7 @@ class World:
                 if isinstance(it.transformation, ExternalSourceBaseTransformation):
                     c = it.transformation._values_cache
                     vc.append(None if c is None else [str(x) for x in c])
-        return {"hits": ci.hits, "misses": ci.misses, "cached": ci.currsize, "vc": vc,
+        return {"hits": ci.hits, "misses": ci.misses, "cached": ci.currsize, "vc": vc, "grown": module_growth(),
                 "hints": cached_hint_classes([self.lcontains]),
                 "tpl_ok": src_vars_ok and all(getattr(c, a) == o[a] for c, o in zip(self.classes, self.orig) for a in TEMPLATE_ATTRS)
                           # set on the class by TextQueryBackend.__new__: constant once an instance exists
